@@ -361,8 +361,8 @@ def dbgStep (_ : Unit) (ts : List String) : Unit × String :=
     | _ => ((), "bad-op")
   | _ => ((), "bad-op")
 
-/-- tie 1 (model = code on the fragment): for a parsed query inside S1 or S2a the REAL statement must equal `tr2 q` (and carry no parameters).
-Then the theorem's prediction is run: on every generated graph that satisfies the hypothesis (`GraphOK` by `graphOKb` for S1, `GraphOK2` by `graphOK2b` for S2a) the two
+/-- tie 1 (model = code on the fragment): for a parsed query inside S1 or S2b the REAL statement must equal the model statement (either join order for a hop) (and carry no parameters).
+Then the theorem's prediction is run: on every generated graph that satisfies the hypothesis (`GraphOK` by `graphOKb` for S1, `GraphOK2` by `graphOK2b` for S2b) the two
 evaluators must agree (or the SQL model stops with `unmodelled`); graphs outside the hypothesis are evaluated too and only counted. -/
 def tieStep (_ : Unit) (ts : List String) : Unit × String :=
   match ts with
@@ -376,25 +376,29 @@ def tieStep (_ : Unit) (ts : List String) : Unit × String :=
         let stage : Option (String × Bool × Bool) := match C01.ofCy q with
           | some s1 => some ("S1", s1.toCy == q, s1.wf)
           | none => match C01.ofCy2 q with
-            | some s2 => some ("S2a", s2.toCy == q, s2.wf)
+            | some s2 => some ("S2b", s2.toCy == q, s2.wf)
             | none => none
         match stage with
         | none => ((), "outside-fragment")
         | some (stg, reading, wf) =>
           if !reading then ((), "tie-differs cypher-reading-of-fragment-term-is-not-the-parsed-query") else
           if !wf then ((), "outside-fragment not-well-formed-for-" ++ stg) else
-          match C01.tr2 km q with
-          | none => ((), "tie-differs model-translator-rejects-a-translated-query")
-          | some (st, ps) =>
+          -- the hop's join order is the translator's choice (selectivity heuristic over its Go tree): the real statement must be the
+          -- model statement for ONE of the two orders; `dir` records whether it is the order the model's approximation picks
+          let cands := [C01.tr2F (fun _ => false) km q, C01.tr2F (fun _ => true) km q].filterMap id
+          match cands with
+          | [] => ((), "tie-differs model-translator-rejects-a-translated-query")
+          | (st0, ps) :: _ =>
             if !((paramsOf pS).map (·.length) == some ps.length) then ((), "tie-differs real-translation-has-parameters") else
-            if !(st == s) then
-              ((), "tie-differs model=" ++ ((toString (repr st)).replace "\n" " ").replace " " "_" ++ " real=" ++ ((toString (repr s)).replace "\n" " ").replace " " "_")
+            if !(cands.any (fun c => c.1 == s)) then
+              ((), "tie-differs model=" ++ ((toString (repr st0)).replace "\n" " ").replace " " "_" ++ " real=" ++ ((toString (repr s)).replace "\n" " ").replace " " "_")
             else
+              let dir := if (C01.tr2 km q).map (·.1) == some s then "model" else "other"
               match gs.toNat?, nr.toNat?, en.toNat?, ee.toNat? with
               | some gseed, some nrandom, some exN, some exE =>
                 let graphs := graphsFor gseed nrandom exN exE
                 let ordered := !q.ret.orderBy.isEmpty
-                -- the hypothesis of the stage's theorem: `GraphOK` for S1, `GraphOK2` for S2a
+                -- the hypothesis of the stage's theorem: `GraphOK` for S1, `GraphOK2` for S2b
                 let hypB := fun (g : Graph) => if stg == "S1" then C01.graphOKb km g else C01.graphOK2b km g
                 let inHyp := graphs.filter hypB
                 let outHyp := graphs.filter (fun g => !hypB g)
@@ -403,7 +407,7 @@ def tieStep (_ : Unit) (ts : List String) : Unit × String :=
                 let isAgree := fun (o : Outcome) => match o with | .agree => true | _ => false
                 let isUsql := fun (o : Outcome) => match o with | .unmodelledSql _ => true | _ => false
                 let bad := outsIn.filter (fun o => !(isAgree o || isUsql o))
-                let counts := s!"stage={stg} graphs={graphs.length} hyp={inHyp.length} agree={(outsIn.filter isAgree).length} usql={(outsIn.filter isUsql).length} outside-hyp={outHyp.length} outside-hyp-agree={(outsOut.filter isAgree).length}"
+                let counts := s!"stage={stg} dir={dir} graphs={graphs.length} hyp={inHyp.length} agree={(outsIn.filter isAgree).length} usql={(outsIn.filter isUsql).length} outside-hyp={outHyp.length} outside-hyp-agree={(outsOut.filter isAgree).length}"
                 if bad.isEmpty then ((), s!"tie-ok {counts}")
                 else ((), s!"tie-proof-mismatch {counts} {summarize bad}")
               | _, _, _, _ => ((), "bad-op")
